@@ -331,7 +331,7 @@ def run_cases(ctx, cases):
 
 
 def run(ctx):
-    proof = prove('C06', ['util', 'romfs'], ['C06_props'], static_deps=['Proofs/RomfsProofs.v'])
+    proof = prove('C06', ['util', 'romfs'], ['C06_props'], static_deps=['Proofs/RomfsProofs.v', 'Proofs/RomfsRepProofs.v'])
     run_cases(ctx, (gen_case(ctx.rng) for _ in range(ctx.n(120, 4000))))
 
     def search():
